@@ -87,6 +87,14 @@ IDIOM_NONE_ATTR = 'AttributeError'
 
 SPLITTERS = {'split', 'rsplit', 'splitlines', 'groups', 'findall', 'partition', 'rpartition'}
 MATCH_ATTRS = {'group', 'groups', 'start', 'end', 'span', 'groupdict'}
+# attributes only some built-in exception classes have: reading one from a caught exception of a wider class raises
+# AttributeError inside the handler (`UnicodeError('x').reason`, `Exception().errno`)
+EXC_ONLY_ATTRS = {
+    'reason': ('UnicodeEncodeError', 'UnicodeDecodeError', 'UnicodeTranslateError'),
+    'object': ('UnicodeEncodeError', 'UnicodeDecodeError', 'UnicodeTranslateError'),
+    'encoding': ('UnicodeEncodeError', 'UnicodeDecodeError', 'UnicodeTranslateError'),
+    'errno': ('OSError',), 'strerror': ('OSError',), 'filename': ('OSError',),
+}
 
 
 class _SomeStr(str):
@@ -432,6 +440,11 @@ class Escape:
                     if self._maybe_none_match(fi, n.value.id, n):
                         out.add(self._item(fi, n, IDIOM_NONE_ATTR, '%s %s.%s on a possibly failed match' % (
                             fi.loc(n), n.value.id, n.attr), 'none-attr'))
+                if self.count_idioms and n.attr in EXC_ONLY_ATTRS and isinstance(n.value, ast.Name):
+                    wide = self._exc_attr_too_wide(fi, n)
+                    if wide:
+                        out.add(self._item(fi, n, 'AttributeError', '%s %s.%s read from a caught %s (only %s have it)' % (
+                            fi.loc(n), n.value.id, n.attr, wide, ' / '.join(EXC_ONLY_ATTRS[n.attr])), 'exc-attr'))
                 if self.count_idioms and isinstance(n.value, ast.Name):
                     src = self._maybe_none_element(fi, n.value.id)
                     if src and not guarded_truthy(fi.node, n.value.id, n):
@@ -442,6 +455,40 @@ class Escape:
                 if it is not None:
                     out.add(it)
         return out
+
+    def _exc_attr_too_wide(self, fi, n):
+        """`name.attr` where name is bound by an enclosing `except T as name` and attr exists only on some built-in exception
+        classes: the widest caught class that lacks it (after isinstance narrowing by enclosing ifs), else None."""
+        pm = U.parents(fi.node)
+        need = EXC_ONLY_ATTRS[n.attr]
+        narrowed = None
+        cur = n
+        for a in U.ancestors(n, pm):
+            if isinstance(a, ast.If) and any(cur is x for x in a.body):
+                t = a.test
+                if isinstance(t, ast.Call) and isinstance(t.func, ast.Name) and t.func.id == 'isinstance' and len(t.args) == 2 \
+                        and isinstance(t.args[0], ast.Name) and t.args[0].id == n.value.id and narrowed is None:
+                    es = t.args[1].elts if isinstance(t.args[1], ast.Tuple) else [t.args[1]]
+                    narrowed = [self.repo.canon_exc(fi.module, dotted(e) or '') or (dotted(e) or '?') for e in es]
+            if isinstance(a, ast.ExceptHandler) and a.name == n.value.id:
+                types = narrowed if narrowed is not None else self.handler_types(fi, a)
+                if not types:
+                    return None
+                for t in types:
+                    if t in self.repo_exc_classes():
+                        continue        # a class of the repository: its attributes are its own business
+                    if not any(self.is_sub(t, r) for r in need):
+                        return t
+                return None
+            if isinstance(a, (ast.FunctionDef, ast.AsyncFunctionDef)):
+                return None
+            cur = a
+        return None
+
+    def repo_exc_classes(self):
+        if not hasattr(self, '_repo_exc'):
+            self._repo_exc = {ci.qual for ci in self.repo.classes.values()} | {ci.name for ci in self.repo.classes.values()}
+        return self._repo_exc
 
     def _via(self, fi, node, items):
         return set(items)
